@@ -88,6 +88,9 @@ class ParserFactory:
         assert not self.exhausted, 'Must call get_parser() to reset state.'
         self.path = path
         parsed_data = self.yacc.parse(data, lexer=self.lexer, debug=self.debug)
+        if parsed_data is None:
+            # The parser gave up; the errors it recorded say why.
+            parsed_data = []
         # It generally makes sense for lexer errors to come first, because
         # those can be the root of parser errors. Also, since we only show one
         # error max right now, it's best to show the lexing one.
